@@ -15,10 +15,10 @@ EXPLANATION = (
     "released on cancellation; R3 every create_task whose handle is stored has a cancel-and-await reachable from shutdown(), and "
     "shutdown() stops the heartbeat BEFORE closing the socket, closes the socket, clears the initialised event and the model, sets CLOSED, "
     "none behind an early exit; R4 sending on a closed socket raises NotOpenError (C16.R3 re-used); R5 re-init: init() unconditionally sets "
-    "CONNECTING, subscribes both callbacks (set-based, idempotent) and opens the socket; stop() empties the task list so start() works again."
+    "CONNECTING, subscribes both callbacks (set-based, idempotent) and opens the socket; stop() empties the task list so start() works again; messages still queued at close() are discarded."
 )
 ASSUMPTIONS = ["Task.cancel() delivers CancelledError at the task's current await", "asyncio.current_task() identifies the caller so close() does not cancel itself"]
-FLOORS = {"C15.R1": 3, "C15.R2": 4, "C15.R3": 14, "C15.R4": 1, "C15.R5": 8}
+FLOORS = {"C15.R1": 3, "C15.R2": 4, "C15.R3": 14, "C15.R4": 1, "C15.R5": 9}
 
 
 def run(ctx):
@@ -207,8 +207,26 @@ def r4(ctx):
         ctx.obligations.append(o)
 
 
+def _queue_resets(fn: Fn):
+    out = [n for n, c in fn.calls("self._message_queue.clear")]
+    out += [n for n, v in fn.assigns("self._message_queue") if isinstance(v, ast.Call) and (dotted(v.func) or "").split(".")[-1] == "deque" and not v.args]
+    return out
+
+
 def r5(ctx):
     R = "C15.R5"
+    # a message still queued when the socket is closed must not be written by the next session (a fresh object has an empty queue)
+    cl = sock_fn(ctx, "close", precise=True)
+    op = sock_fn(ctx, "open_socket", precise=True)
+    ok = False
+    for f, want_true in ((cl, True), (op, False)):
+        resets = _queue_resets(f)
+        for t in f.tests(lambda e: dotted(e) == "self.is_open"):
+            # close(): `if self.is_open:` -> true branch acts; open_socket(): `if not self.is_open:` is decomposed so the acting branch is "false"
+            b = f.branch(t, "true" if want_true else "false")
+            if resets and f.cfg.all_paths_pass(b.id, [f.cfg.exit.id], [r.id for r in resets], NONEXC):
+                ok = True
+    ctx.check(ok, R, "close/open_socket:pending-queue-discarded", cl.module, cl.node, "messages still queued at close() are discarded (in close(), or in open_socket() before connecting), so a later init() starts with an empty queue like a fresh object", "the queue survives close(): an unexpired command of the previous session is written as soon as the next session connects")
     for modname, clsname in ((AT4_API, "AirTouch4"), (AT5_API, "AirTouch5")):
         ini = fn_of(ctx, modname, f"{clsname}.init")
         m, g = ini.module, ini.cfg
